@@ -25,7 +25,7 @@ let dup_times (s : cl_state) : bool =
 
 type cprofile = { c_user : int; c_sleep : int; c_loss : int; c_unsolicited : int; c_will : int }
 
-let gen_history (idx : int) (prof : cprofile) (oc : out_channel) =
+let gen_history ?(ka = 0) (idx : int) (prof : cprofile) (oc : out_channel) =
   let user = rnd 100 < prof.c_user in
   let will = rnd 100 < prof.c_will in
   let rdelay = pick [300; 1000; 1500] in
@@ -33,33 +33,43 @@ let gen_history (idx : int) (prof : cprofile) (oc : out_channel) =
   let ctimeout = pick [500; 2000; 5000] in
   let predef = Gen_gw.gen_predef () in
   let hx s = hex_of_bytes (bs s) in
-  let hline = Printf.sprintf "H %d cid=%s user=%s pass=%s keepalive=0 ctimeout=%d rdelay=%d rcount=%d clean=%d will=%s wmsg=%s wqos=%d wretain=%d predef=%s"
-      idx (hx "cl1") (if user then hx "u1" else "-") (hx (if user then "pw" else "")) ctimeout rdelay rcount (rnd 2)
+  let hline = Printf.sprintf "H %d cid=%s user=%s pass=%s keepalive=%d ctimeout=%d rdelay=%d rcount=%d clean=%d will=%s wmsg=%s wqos=%d wretain=%d predef=%s"
+      idx (hx "cl1") (if user then hx "u1" else "-") (hx (if user then "pw" else "")) ka ctimeout rdelay rcount (rnd 2)
       (if will then hx "will/t" else "-") (hx "bye") (rnd 3) (rnd 2) predef in
   let cfg = Cl_io.parse_cfg (List.tl (List.tl (split_on ' ' hline))) in
   output_string oc (hline ^ "\n");
+  (* the keep-alive wrapper of the client model (it is cl_step itself when KeepAlive = 0) *)
+  let kst = ref ka_init in
   let s = ref cl_init in
   let next_call = ref 1 in
-  let rec ambiguous_advance (st : cl_state) (target : int) : bool =
-    match List.sort compare (deadlines st) with
+  let kdeadlines (st : ka_state) : int list =
+    deadlines st.ka_cl @ (match (if st.ka_done then None else st.ka_next) with Some t -> [int_of_n t] | None -> []) in
+  let kdup (st : ka_state) : bool =
+    let sorted = List.sort compare (kdeadlines st) in
+    let rec dup = function a :: (b :: _ as r) -> a = b || dup r | _ -> false in
+    dup sorted in
+  let rec ambiguous_advance (st : ka_state) (target : int) (fuel : int) : bool =
+    if fuel = 0 then true else
+    match List.sort compare (kdeadlines st) with
     | [] -> false
     | m :: rest ->
       if m > target then false
       else if m = target then true
       else if (match rest with m2 :: _ -> m2 = m | [] -> false) then true
       else
-        let (st', _) = cl_step cfg st (CAdv (n_of_int (m - int_of_n st.cl_now))) in
-        if st'.cl_exited then false else ambiguous_advance st' target in
+        let (st', _) = ka_step cfg st (CAdv (n_of_int (m - int_of_n st.ka_cl.cl_now))) in
+        if st'.ka_cl.cl_exited then false else ambiguous_advance st' target (fuel - 1) in
   (* message IDs of exchanges that existed at some point (the gateway may answer late: stale acks) *)
   let recent = ref [] in
   let emit (text : string) : bool =
     List.iter (fun (k, _) -> let k = int_of_n k in if not (List.mem k !recent) then recent := k :: (match !recent with a :: b :: c :: d :: e :: _ -> [a; b; c; d; e] | l -> l))
       (nmap_to_list !s.cl_by_id);
     let ev = Cl_io.parse_event text in
-    let amb = (match ev with CAdv d -> ambiguous_advance !s (int_of_n !s.cl_now + int_of_n d) | _ -> false) in
+    let amb = (match ev with CAdv d -> ambiguous_advance !kst (int_of_n !s.cl_now + int_of_n d) 300 | _ -> false) in
     if amb then false else begin
-      let (s', _) = cl_step cfg !s ev in
-      if dup_times s' then false else begin s := s'; output_string oc ("E " ^ text ^ "\n"); true end end in
+      let (k', _) = ka_step cfg !kst ev in
+      if kdup k' || (k'.ka_excl && not !kst.ka_excl) then false
+      else begin kst := k'; s := k'.ka_cl; output_string oc ("E " ^ text ^ "\n"); true end end in
   let emit_or_skip text = if not (emit text) then (ignore (emit "ADV 1"); ignore (emit text)) in
   let adv_safe d = let rec go d k = if k > 6 then () else if not (emit (Printf.sprintf "ADV %d" d)) then go (d + 1 + rnd 3) (k + 1) in go (max 1 d) 0 in
   let call (a : string) = let id = !next_call in incr next_call; emit_or_skip (Printf.sprintf "CALL %d %s" id a) in
@@ -73,7 +83,12 @@ let gen_history (idx : int) (prof : cprofile) (oc : out_channel) =
   let next_tid = ref (1 + rnd 3) in
   let fresh_tid () = let t = !next_tid in next_tid := t + 1 + rnd 2; t in
   (* the gateway's answer to a pending transaction *)
-  let answer (lossy : bool) =
+  let rec answer (lossy : bool) =
+    if !kst.ka_busy <> None && rnd 10 < 7 then begin
+      (* the keep-alive ping of the loop is answered (now and then late or not at all) *)
+      if rnd 8 = 0 then adv_safe (rdelay + pick [-1; 1]) else gw Pingresp end
+    else answer1 lossy
+  and answer1 (lossy : bool) =
     match objs () with
     | [] -> ()
     | l ->
@@ -178,8 +193,9 @@ let gen_history (idx : int) (prof : cprofile) (oc : out_channel) =
        | `Deliver -> deliver ()
        | `Answer -> answer true
        | `Unsol -> unsolicited ()
-       | `Adv -> adv_safe (pick [rdelay - 1; rdelay + 1; 2 * rdelay + 3; ctimeout + 1; 50])
-       | `Edge -> (match deadlines !s with
+       | `Adv -> adv_safe (pick ([rdelay - 1; rdelay + 1; 2 * rdelay + 3; ctimeout + 1; 50] @
+                                 (if ka > 0 then [ka * 1000 - 1; ka * 1000 + 1; ka * 1000 + 1; 2 * ka * 1000 + 7; ka * 500] else [])))
+       | `Edge -> (match kdeadlines !kst with
            | [] -> adv_safe (1 + rnd 50)
            | l -> adv_safe (max 1 (pick l - int_of_n !s.cl_now + pick [-1; 1; 1; 50]))))
     end else adv_safe (pick [500; 1001; 2000]);
@@ -200,5 +216,21 @@ let run (seed : int) (n : int) (out : string) =
   let oc = if out = "-" then stdout else open_out out in
   for idx = 0 to n - 1 do
     gen_history idx profiles.(idx mod Array.length profiles) oc
+  done;
+  if out <> "-" then close_out oc
+
+(* histories with the keep-alive loop running (C33): the same walks with KeepAlive of 1-3 s and a
+   gateway that answers the loop's pings most of the time; sleep cycles are frequent *)
+let ka_profiles = [|
+  { c_user = 0; c_sleep = 14; c_loss = 8; c_unsolicited = 4; c_will = 0 };
+  { c_user = 0; c_sleep = 30; c_loss = 15; c_unsolicited = 3; c_will = 0 };
+  { c_user = 30; c_sleep = 6; c_loss = 5; c_unsolicited = 8; c_will = 20 };
+|]
+
+let run_ka (seed : int) (n : int) (out : string) =
+  seed_rng seed;
+  let oc = if out = "-" then stdout else open_out out in
+  for idx = 0 to n - 1 do
+    gen_history ~ka:(pick [1; 2; 2; 3]) idx ka_profiles.(idx mod Array.length ka_profiles) oc
   done;
   if out <> "-" then close_out oc
